@@ -5,7 +5,14 @@ bracketed, with spaces/commas/colons/placeholder characters, lists, nested maps)
 pointers, slices, maps, structs with yaml tags, interface{}), binds each pair through the REAL container three ways
 (prefix twin, value placeholder, prop shorthand; one App.Run per route) plus literal value tags (harness/cmd/c17, types
 built with reflect.StructOf, configuration through a RawLoader YAML document) and evaluates model and oracle in Coq
-(Corr/Check_C17.v).  The model's input is what Configure.Get(key) really returned."""
+(Corr/Check_C17.v).  The model's input is what Configure.Get(key) really returned.
+
+Further streams: placeholders that carry a default (value:"${key:d}" / prop:"key:d") on keys that are present - often with
+the empty string as value -, absent, or present with an empty list / map; placeholders spliced into a longer literal
+(kind tpl); and GROUPS: several starts per driver process, several components per start, several bindings per component,
+with the tag argument mapper=<tag key> on some bindings and struct types whose yaml / json / mapstructure tag names differ
+from the Go field names (Values.gtype / bound_type: a property's decoder reads the tags its OWN mapper argument names,
+yaml by default).  Every group runs in a process of its own, so a replay of a group is self-contained."""
 import copy
 import glob
 import json
@@ -25,11 +32,14 @@ MANIFEST = {
             "`safe` - plain strings, booleans, integers up to 2^53 into non-interface targets, floats that %v writes in plain "
             "digits, lists and maps of JSON-plain strings / such numbers into slices, maps, structs, pointers (c17_paths_agree, "
             "c17_paths_agree_key through the real tag text, c17_prop_is_value, c17_prop_agrees; proved by induction via a JSON "
-            "print/parse round trip and decimal digit arithmetic, not sampled); a plain literal reaches a string field as written "
-            "(c17_literal*). Outside `safe` the statement is false of the format->splice->re-parse value path: nine refuted "
+            "print/parse round trip and decimal digit arithmetic, not sampled); a default written in the placeholder plays no part "
+            "for a key that is present, the empty string included (c17_default_only_for_absent); a plain literal reaches a string "
+            "field as written (c17_literal*). Outside `safe` the statement is false of the format->splice->re-parse value path: nine refuted "
             "theorems, one per known-finding class KF-C17a..i; for class g a small repair exists (fixes/D-C17g.diff) and is a "
             "parameter of the model (c17_float_repaired). Tied to the code on every run by vm_compute against real App.Run starts "
-            "binding each generated value three ways plus literal tags",
+            "binding each generated value three ways (with and without a placeholder default, alone and inside a longer literal) "
+            "plus literal tags, and against groups of starts in one process whose bindings carry mapper=<tag key> arguments over "
+            "structs with yaml / json tag names that differ from the field names (each binding is predicted from its own tag only)",
     "design_ref": "DESIGN.md 5 C17",
     "note": "trusted: Coq kernel + vm_compute; hand-written models of strconv2 v0.0.2 ParseAny/FormatAny, encoding/json and the "
             "weak-decoding subset of mapstructure v1.5.0 (third-party, modelled as they behave; dw_modelled / text_in_fragment state "
@@ -88,6 +98,37 @@ LITERALS = ["hello", "hello world", "a:b", "x=y", "007", "1.10", "+5", "TRUE", "
             "1e5", "0x1F", "nil", "<nil>", "x<y", "semi;colon", "[]", "{}", "map[]", "12ab", "yes", "T", "'", "''",
             "9007199254740993", "1000000", "0.00001", "[[1,2],[3]]", "[{\"a\":1}]", "UPPER", "t", "f", "1", "-1",
             "tab\there", "[true,false]", "[1.5,2]", "'[a,b]'", "\"007\""]
+
+
+# placeholder defaults (no top-level comma, no brace), text around a placeholder (no sigil, no brace, no comma)
+DEFAULTS = ["dflt", "INFO - ", "fallback", "7", "007", "2.5", "true", "x y", "a:b", "localhost:8080", "none", "[a,b]", "0",
+            "'q'", "TRUE", "-", "default value"]
+TPL_PFX = ["", "", "pre-", "http://", "v", "x ", "id=", "[", "user: ", "a.b.", "INFO - ", "/srv/", "1", "'"]
+TPL_SFX = ["", "", "-post", "weekly report", "/path", ".local", " y", "=1", "]", "@example.org", ":8080", "0", "'"]
+MAPPERS = ["json", "json", "json", "json", "yaml", "toml", "mapstructure"]
+# top-level strings that are in the domain of c17_paths_agree (plain, non-empty, no sigil): every route binds them
+WT_WORDS = ["hello", "hello world", "x:y", "k=v", "path/to/file.txt", "UPPER lower", "v1.2.3", "user@example.com",
+            "primary", "a.example.org", "localhost", "eu-west-1", "semi;colon", "it's", "(paren)", "trailing ", "nil", "yes",
+            "e", "on", "percent %d", "a b  c", "key: value", "x'y"]
+
+
+# struct fields: [go name, yaml tag text, T] or [go name, yaml tag text, T, {tag key: tag text}] (further struct tags)
+def field_tags(f):
+    tags = [("yaml", f[1])] if f[1] else []
+    if len(f) > 3:
+        tags += sorted(f[3].items())
+    return tags
+
+
+def match_name(f, tagkey="yaml"):
+    """the name mapstructure matches keys against when DecoderConfig.TagName = tagkey (the Coq side computes it again:
+    Values.match_name; this copy decides which keys the generator configures and how observations are labelled)"""
+    text = dict(field_tags(f)).get(tagkey, "")
+    return text.split(",")[0] or f[0]
+
+
+def decoder_tag(mapper):
+    return "yaml" if mapper is None else (mapper or "mapstructure")
 
 
 # ------------------------------------------------------------------------------------------------
@@ -234,9 +275,9 @@ def fit(rng, t, depth=0, top=True):
     if k == "struct":
         if r < 0.9:
             kv = []
-            for go, tag, ft in t[1]:
+            for f in t[1]:
                 if rng.random() < 0.8:
-                    kv.append([(tag or go).lower(), fit(rng, ft, depth + 1, False)])
+                    kv.append([match_name(f).lower(), fit(rng, f[2], depth + 1, False)])
             if rng.random() < 0.3:
                 extra = rng.choice(SUBKEYS)
                 if extra not in [x[0] for x in kv]:
@@ -277,14 +318,30 @@ def gen_type(rng, depth=0):
     if r < 0.86:
         return ["map", gen_type(rng, depth + 1)]
     names = rng.sample(SUBKEYS, rng.choice([1, 2, 2, 3, 4]))
-    fields = []
-    for i, n in enumerate(names):
-        if rng.random() < 0.3:
-            go, tag = "F%d%s" % (i, GONAME[rng.choice(SUBKEYS)]), n     # yaml tag differs from the Go name
-        else:
-            go, tag = GONAME[n], ""
-        fields.append([go, tag, gen_type(rng, depth + 1)])
-    return ["struct", fields]
+    return ["struct", [gen_field(rng, i, n, gen_type(rng, depth + 1)) for i, n in enumerate(names)]]
+
+
+def gen_field(rng, i, n, ft, renamed=0.45):
+    """a struct field for the base name n (distinct per struct): Go name, yaml tag, further tags.  Whatever tag key the
+    decoder uses, the match names of one struct stay distinct (also case-insensitively) and lower-case-able."""
+    r = rng.random()
+    extra = {}
+    if r < 1 - renamed:
+        go, tag = GONAME[n], ("" if rng.random() < 0.75 else n)            # the yaml name is the Go name
+    elif r < 1 - renamed / 2:
+        go, tag = "F%d%s" % (i, GONAME[rng.choice(SUBKEYS)]), n            # yaml tag differs from the Go name
+    else:
+        go, tag = GONAME[n], rng.choice([n + "_y", "x_" + n])              # snake-case yaml name, Go name still matches n
+    if tag and rng.random() < 0.2:
+        tag += ",omitempty"
+    rj = rng.random()
+    if rj < 0.25:
+        extra["json"] = rng.choice([n + "J", "j_" + n]) + (",omitempty" if rng.random() < 0.3 else "")
+    elif rj < 0.33:
+        extra["json"] = n
+    elif rj < 0.37:
+        extra["mapstructure"] = "m_" + n
+    return [go, tag, ft, extra] if extra else [go, tag, ft]
 
 
 def hexs(x):
@@ -333,7 +390,7 @@ def gen_prefill(rng, t, depth=0):
             keys.append(rng.choice(SUBKEYS))           # a key the configuration may supply as well
         return {"M": sorted([hexs(kk), gen_prefill(rng, t[1], depth + 1)] for kk in set(keys))}
     if k == "struct":
-        return {"T": [[hexs(tag or g), gen_prefill(rng, ft, depth + 1)] for g, tag, ft in t[1]]}
+        return {"T": [[hexs(match_name(f)), gen_prefill(rng, f[2], depth + 1)] for f in t[1]]}
     raise ValueError(t)
 
 
@@ -356,7 +413,7 @@ def default_prefill(t):
         return {"L": [default_prefill(t[1]) for _ in range(4)]}
     if k == "map":
         return {"M": [[hexs("dflt"), default_prefill(t[1])], [hexs("keep"), default_prefill(t[1])]]}
-    return {"T": [[hexs(tag or g), default_prefill(ft)] for g, tag, ft in t[1]]}
+    return {"T": [[hexs(match_name(f)), default_prefill(f[2])] for f in t[1]]}
 
 
 def gen_container_type(rng):
@@ -376,38 +433,60 @@ def gen_container_type(rng):
     return gen_type(rng)
 
 
-def type_go(t):
+def type_go(t, tagkey="yaml"):
     k = t[0]
     if k in ("string", "bool", "any"):
         return {"k": k}
     if k in ("int", "uint", "float"):
         return {"k": k, "bits": t[1]}
     if k in ("ptr", "slice", "map"):
-        return {"k": k, "e": type_go(t[1])}
-    return {"k": "struct", "f": [{"go": g, "tag": tag, "t": type_go(ft)} for g, tag, ft in t[1]]}
+        return {"k": k, "e": type_go(t[1], tagkey)}
+    return {"k": "struct", "f": [{"go": f[0], "tags": [{"k": a, "v": b} for a, b in field_tags(f)],
+                                 "name": match_name(f, tagkey), "t": type_go(f[2], tagkey)} for f in t[1]]}
 
 
 def type_coq(t):
+    """the declared type (Values.gtype): Go names and struct tags; the Coq side picks the names (Values.erase)"""
     k = t[0]
     if k == "string":
-        return "TString"
+        return "GString"
     if k == "bool":
-        return "TBool"
+        return "GBool"
     if k == "any":
-        return "TAny"
+        return "GAny"
     if k == "int":
-        return "(TInt %d)" % (t[1] or 64)
+        return "(GInt %d)" % (t[1] or 64)
     if k == "uint":
-        return "(TUint %d)" % (t[1] or 64)
+        return "(GUint %d)" % (t[1] or 64)
     if k == "float":
-        return "(TFloat %d)" % t[1]
+        return "(GFloat %d)" % t[1]
     if k == "ptr":
-        return "(TPtr %s)" % type_coq(t[1])
+        return "(GPtr %s)" % type_coq(t[1])
     if k == "slice":
-        return "(TSlice %s)" % type_coq(t[1])
+        return "(GSlice %s)" % type_coq(t[1])
     if k == "map":
-        return "(TMap %s)" % type_coq(t[1])
-    return "(TStruct %s)" % vlib.coq_list("(%s, %s)" % (vlib.coq_bytes(tag or g), type_coq(ft)) for g, tag, ft in t[1])
+        return "(GMap %s)" % type_coq(t[1])
+    return "(GStruct %s)" % vlib.coq_list(
+        "(%s, %s, %s)" % (vlib.coq_bytes(f[0]),
+                          vlib.coq_list("(%s, %s)" % (vlib.coq_bytes(a), vlib.coq_bytes(b)) for a, b in field_tags(f)),
+                          type_coq(f[2])) for f in t[1])
+
+
+def has_renamed(t, tagkey="yaml"):
+    """some struct field of t is matched under a name that is not its Go name when the decoder uses tagkey"""
+    if t[0] in ("ptr", "slice", "map"):
+        return has_renamed(t[1], tagkey)
+    if t[0] == "struct":
+        return any(match_name(f, tagkey) != f[0] or has_renamed(f[2], tagkey) for f in t[1])
+    return False
+
+
+def names_differ(t, k1, k2):
+    if t[0] in ("ptr", "slice", "map"):
+        return names_differ(t[1], k1, k2)
+    if t[0] == "struct":
+        return any(match_name(f, k1).lower() != match_name(f, k2).lower() or names_differ(f[2], k1, k2) for f in t[1])
+    return False
 
 
 def type_kind(t):
@@ -536,19 +615,27 @@ def tag_text(c):
     return c["text"] if c["kind"] == "lit" else ""
 
 
+def coq_opt_bytes(x):
+    return "None" if x is None else "(Some %s)" % vlib.coq_bytes(x)
+
+
+KIND_NO = {"key": 0, "lit": 1, "tpl": 2}
+
+
 def coq_case(c, o, fix):
     """raises Odd when Configure.Get returned something the model's value type cannot carry"""
-    kind = 0 if c["kind"] == "key" else 1
-    v = cval_coq(o["get"]) if c["kind"] == "key" else "VNull"
+    kind = KIND_NO[c["kind"]]
+    v = cval_coq(o["get"]) if c["kind"] != "lit" else "VNull"
     pre = "None"
     if c.get("pre") is not None:
         if o.get("pre") is None:
             raise Odd("the harness could not pre-fill the field")
         pre = "(Some %s)" % fval_coq(o["pre"])      # as read back from the pre-filled Go value
-    return "mkCase %d %d %s %s %s %s %s %s %s %s %s %s %s" % (
+    return "mkCase %d %d %s %s %s %s %s %s %s %s %s %s %s %s %s %s %s" % (
         c["id"], kind, vlib.coq_bool(c["req"]), vlib.coq_bytes(c["key"]), v, vlib.coq_bytes(tag_text(c)),
         type_coq(c["type"]), vlib.coq_bool(fix), obs_coq(o.get("prefix")), obs_coq(o.get("value")), obs_coq(o.get("prop")),
-        pre, obs_coq(o.get("fresh")))
+        pre, obs_coq(o.get("fresh")), coq_opt_bytes(c.get("dflt")), vlib.coq_bytes(c.get("pfx", "")),
+        vlib.coq_bytes(c.get("sfx", "")), coq_opt_bytes(c.get("mapper")))
 
 
 # ------------------------------------------------------------------------------------------------
@@ -563,11 +650,169 @@ def mk_lit_case(text, t, req=True, stream="literal"):
             "text": text + ("" if req else ",required=false"), "stream": stream}
 
 
+def gen_default_case(rng):
+    """value:"${key:default}" / prop:"key:default" next to prefix:"key".  Mostly the key is PRESENT (the default must play
+    no part) - often with the empty string as its value -, sometimes absent / null / an empty list or map (the default
+    applies)."""
+    r = rng.random()
+    dflt = rng.choice(DEFAULTS)
+    req = rng.random() < 0.5
+    if r < 0.34:                                       # present, the empty string
+        rr = rng.random()
+        t = (["string"] if rr < 0.5 else ["ptr", ["string"]] if rr < 0.6 else ["slice", ["string"]] if rr < 0.7 else
+             ["any"] if rr < 0.8 else gen_scalar_type(rng))
+        c = mk_key_case(rng, ["s", ""], t, req=req, stream="default")
+    elif r < 0.52:                                     # present, a string
+        t = ["string"] if rng.random() < 0.6 else gen_scalar_type(rng)
+        c = mk_key_case(rng, ["s", rng.choice(WT_WORDS) if rng.random() < 0.6 else gen_string(rng, True)], t, req=req,
+                        stream="default")
+    elif r < 0.74:                                     # present, anything fitted to a type (0, false, lists, maps, structs)
+        t = gen_type(rng)
+        v = fit(rng, t)
+        if rng.random() < 0.25:
+            v = rng.choice([["i", 0], ["b", False], ["f", "0.0"], ["s", "0"], ["s", "false"], ["s", " "]])
+        c = mk_key_case(rng, v, t, req=req, stream="default")
+    elif r < 0.84:                                     # present but empty list / map: counts as absent for the ${} stage
+        t = rng.choice([["slice", ["string"]], ["map", ["string"]], ["string"], ["any"], ["slice", ["int", 0]]])
+        c = mk_key_case(rng, rng.choice([["l", []], ["m", []]]), t, req=req, stream="default")
+    else:                                              # absent / null: the default applies
+        t = ["string"] if rng.random() < 0.5 else gen_scalar_type(rng) if rng.random() < 0.7 else gen_type(rng)
+        c = mk_key_case(rng, ["n"], t, req=req, stream="default")
+        c["absent"] = rng.random() < 0.7
+    c["dflt"] = dflt if rng.random() < 0.93 else ""
+    return c
+
+
+def gen_template_case(rng):
+    """value:"<pfx>${key[:default]}<sfx>": the placeholder spliced into a longer literal (value route only)"""
+    pfx, sfx = rng.choice(TPL_PFX), rng.choice(TPL_SFX)
+    if not pfx and not sfx:
+        sfx = rng.choice([x for x in TPL_SFX if x])
+    r = rng.random()
+    if r < 0.25:
+        v = ["s", ""]
+    elif r < 0.60:
+        v = ["s", rng.choice(WT_WORDS) if rng.random() < 0.7 else gen_string(rng, True)]
+    elif r < 0.80:
+        v = gen_scalar(rng, True, rng.choice(["i", "f", "b"]))
+    else:
+        v = ["n"]
+    rr = rng.random()
+    t = ["string"] if rr < 0.72 else ["any"] if rr < 0.8 else ["slice", ["string"]] if rr < 0.86 else gen_scalar_type(rng)
+    c = mk_key_case(rng, v, t, req=rng.random() < 0.7, stream="template")
+    c["kind"] = "tpl"
+    c["pfx"], c["sfx"] = pfx, sfx
+    if v == ["n"]:
+        c["absent"] = rng.random() < 0.7
+    if rng.random() < (0.65 if v != ["n"] else 0.8):
+        c["dflt"] = rng.choice(DEFAULTS)
+    return c
+
+
+# ---- groups: several bindings per start, several starts per process --------------------------------------------
+
+def gen_wt_type(rng, depth=0, structy=0.55):
+    """types of the well-typed stream (no interface{}: every route binds the same value, nothing fails)"""
+    r = rng.random()
+    if depth >= 2 or r > structy + 0.25:
+        return rng.choice([["string"], ["string"], ["bool"], ["int", 0], ["int", 64], ["int", 32], ["float", 64], ["uint", 16]])
+    if r < structy:
+        names = rng.sample(SUBKEYS, rng.choice([1, 2, 2, 3, 3, 4]))
+        fields = [gen_field(rng, i, n, gen_wt_type(rng, depth + 1, 0.2), renamed=0.6) for i, n in enumerate(names)]
+        t = ["struct", fields]
+        return ["ptr", t] if rng.random() < 0.2 else t
+    if r < structy + 0.12:
+        return ["slice", gen_wt_type(rng, depth + 1, 0.3)]
+    if r < structy + 0.2:
+        return ["map", gen_wt_type(rng, depth + 1, 0.3)]
+    return ["ptr", gen_wt_type(rng, depth + 1, 0.3)]
+
+
+def gen_wt_value(rng, t, tagkey, top=True):
+    """a value that already has type t: struct fields under the names the decoder with TagName = tagkey looks for"""
+    k = t[0]
+    if k == "string":
+        return ["s", rng.choice(WT_WORDS if top else WT_WORDS[:12] + ["007", "1.10", "TRUE", "'q'"])]
+    if k == "bool":
+        return ["b", rng.random() < 0.6]
+    if k == "int":
+        lim = 2 ** ((t[1] or 64) - 1) - 1
+        return ["i", rng.choice([z for z in (1, 7, 64, 3, 90, 8080, -4, 100000, 2 ** 31 - 1, 2 ** 40) if abs(z) <= lim])]
+    if k == "uint":
+        return ["i", rng.choice([1, 7, 64, 443, 65535])]
+    if k == "float":
+        return ["f", rng.choice(FLOATS)]
+    if k == "ptr":
+        return gen_wt_value(rng, t[1], tagkey, top)
+    if k == "slice":
+        return ["l", [gen_wt_value(rng, t[1], tagkey, False) for _ in range(rng.choice([1, 2, 2, 3]))]]
+    if k == "map":
+        return ["m", [[kk, gen_wt_value(rng, t[1], tagkey, False)] for kk in rng.sample(SUBKEYS, rng.choice([1, 2, 2, 3]))]]
+    kv = [[match_name(f, tagkey).lower(), gen_wt_value(rng, f[2], tagkey, False)] for f in t[1] if rng.random() < 0.9]
+    if not kv:
+        f = t[1][0]
+        kv = [[match_name(f, tagkey).lower(), gen_wt_value(rng, f[2], tagkey, False)]]
+    rng.shuffle(kv)
+    return ["m", kv]
+
+
+def gen_group_case(rng, key):
+    r = rng.random()
+    if r < 0.08:                                       # a literal next to the configured values
+        return mk_lit_case(rng.choice(["hello", "a:b", "hello world", "x=y", "path/to/x.txt"]), ["string"], stream="group")
+    mapper = rng.choice(MAPPERS) if rng.random() < 0.42 else None
+    t = gen_wt_type(rng)
+    tagkey = decoder_tag(mapper)
+    # the configuration is mostly written for the decoder the property really gets; sometimes for the yaml names although
+    # the property says mapper=..., or for the json names although it does not (those fields then stay zero)
+    vkey = tagkey if rng.random() < 0.82 else rng.choice(["yaml", "json"])
+    v = gen_wt_value(rng, t, vkey)
+    c = mk_key_case(rng, v, t, req=True, key=key, stream="group")
+    c["mapper"] = mapper
+    rr = rng.random()
+    if rr < 0.18:
+        c["dflt"] = rng.choice(DEFAULTS)
+    elif rr < 0.26 and t == ["string"]:                # present and empty, with a default: nothing may be bound but ""
+        c["value"], c["req"], c["dflt"] = ["s", ""], False, rng.choice(DEFAULTS)
+    elif rr < 0.32 and t == ["string"]:
+        c["kind"], c["pfx"], c["sfx"] = "tpl", rng.choice(["pre-", "http://", "id=", ""]), rng.choice(["-post", "/p", ".local"])
+    return c
+
+
+def gen_group(rng, gid):
+    """starts x components x bindings, all run in ONE process, every start one App.Run.  Every binding is well-typed
+    (it succeeds on every route), so whatever a binding receives can only depend on its own tag and key."""
+    starts = []
+    k = 0
+    for _ in range(rng.choice([1, 2, 2, 3, 3])):
+        comps = []
+        for _ in range(rng.choice([1, 1, 2, 2, 3])):
+            cases = []
+            for _ in range(rng.choice([1, 2, 2, 3])):
+                key = "k%d" % k if rng.random() < 0.6 else "s%d.val" % k
+                cases.append(gen_group_case(rng, key))
+                k += 1
+            comps.append(cases)
+        starts.append({"comps": comps})
+    return {"gid": gid, "starts": starts}
+
+
+def group_cases(g):
+    return [c for st in g["starts"] for comp in st["comps"] for c in comp]
+
+
 def gen_cases(ctx, n):
     rng = ctx.rng
     out = []
     for _ in range(n):
         r = rng.random()
+        if r < 0.09:                                   # a default in the placeholder / prop shorthand
+            out.append(gen_default_case(rng))
+            continue
+        if r < 0.14:                                   # the placeholder inside a longer literal
+            out.append(gen_template_case(rng))
+            continue
+        r = (r - 0.14) / 0.86
         if r < 0.20:                                   # the component is registered with defaults in the bound field
             out.append(gen_prefilled_case(rng))
             continue
@@ -622,33 +867,69 @@ def gen_prefilled_case(rng):
 def load_corpus():
     d = os.path.join(vlib.VERIF, "corpus", "C17")
     out = []
+    groups = []
     for f in sorted(glob.glob(os.path.join(d, "*.json"))):
         c = json.load(open(f))
+        if "group" in c:                                 # several starts x components x bindings, one process
+            g = {"gid": len(groups), "starts": c["group"]["starts"], "corpus_file": os.path.basename(f)}
+            for gc in group_cases(g):
+                gc["stream"] = "corpus-group"
+            groups.append(g)
+            continue
         c["corpus_file"] = os.path.basename(f)
         c["stream"] = "corpus"
         out.append(c)
-    return out
+    return out, groups
 
 
-def go_case(c):
-    g = {"id": c["id"], "kind": c["kind"], "key": c["key"], "args": "" if c["req"] else ",required=false",
-         "text": c["text"], "type": type_go(c["type"]), "pre": c.get("pre")}
-    if c["kind"] == "key" and not c.get("absent"):
+def case_args(c):
+    return ("" if c["req"] else ",required=false") + (",mapper=" + c["mapper"] if c.get("mapper") is not None else "")
+
+
+def go_case(c, with_yaml=True):
+    body = c["key"] + (":" + c["dflt"] if c.get("dflt") is not None else "")
+    text = c["text"]
+    if c["kind"] == "lit" and c.get("mapper") is not None:
+        text += ",mapper=" + c["mapper"]
+    g = {"id": c["id"], "kind": c["kind"], "key": c["key"], "body": body, "pfx": c.get("pfx", ""), "sfx": c.get("sfx", ""),
+         "args": case_args(c), "text": text, "type": type_go(c["type"], decoder_tag(c.get("mapper"))),
+         "pre": c.get("pre")}
+    if not with_yaml:
+        return g
+    if c["kind"] != "lit" and not c.get("absent"):
         g["yaml"] = yaml_doc(c["key"], c["value"])
     else:
         g["yaml"] = yaml_doc("other.key", ["i", 1])
     return g
 
 
+def start_yaml(st):
+    """one document for all bindings of a start (their keys have distinct first segments)"""
+    parts = ['"other": {"key": 1}']
+    for comp in st["comps"]:
+        for c in comp:
+            if c["kind"] != "lit" and not c.get("absent"):
+                parts.append(yaml_doc(c["key"], c["value"]).strip()[1:-1])
+    return "{" + ", ".join(parts) + "}\n"
+
+
+def go_group(g):
+    return {"gid": g["gid"], "starts": [{"yaml": start_yaml(st),
+                                         "comps": [{"cases": [go_case(c, False) for c in comp]} for comp in st["comps"]]}
+                                        for st in g["starts"]]}
+
+
 DEFS = {"M": "mismatches", "V": "violations", "K": "known", "U": "unmodelled", "NT": "count_nontrivial",
-        "DC": "domain_counts", "PC": "prefill_counts"}
+        "DC": "domain_counts", "PC": "prefill_counts", "CC": "class_counts"}
+NCC = 11
 
 
-def evaluate(ctx, binp, cases, tag):
-    """implementation + Coq.  returns (by_id, res) with res = {M, V: [ids], K: {id: class}, U, NT: counts}"""
-    gin = {"cases": [go_case(c) for c in cases]}
+def evaluate(ctx, binp, cases, tag, groups=()):
+    """implementation + Coq.  cases = the bindings run one App.Run per route; groups = bindings run together (their cases
+    carry ids of their own).  returns (by_id, res) with res = {M, V: [ids], K: {id: class}, U, NT: counts}"""
+    gin = {"cases": [go_case(c) for c in cases], "groups": [go_group(g) for g in groups]}
     rc, res, raw = vlib.run_json(binp, gin, timeout=3000)
-    if res is None or len(res.get("outs", [])) != len(cases):
+    if res is None or len(res.get("outs", [])) != len(cases) or len(res.get("gouts") or []) != len(groups):
         raise vlib.GoBuildError("./cmd/c17 (run)", raw[-3000:])
     splice = (res.get("facts") or {}).get("float_splice")
     if splice not in ("1e+06", "1000000"):
@@ -665,6 +946,20 @@ def evaluate(ctx, binp, cases, tag):
             terms.append(coq_case(c, o, fix))
         except Odd as ex:
             odd.append((c["id"], str(ex)))
+    for g, gg, go_ in zip(groups, gin["groups"], res.get("gouts") or []):
+        gcs = group_cases(g)
+        if len(go_["outs"]) != len(gcs):
+            raise vlib.GoBuildError("./cmd/c17 (run)", "group %d: %d observations for %d bindings" % (
+                g["gid"], len(go_["outs"]), len(gcs)))
+        shown = {"gid": g["gid"], "starts": [{"yaml": sg["yaml"], "components": st["comps"]}
+                                             for st, sg in zip(g["starts"], gg["starts"])],
+                 "observed": go_["outs"]}
+        for c, o in zip(gcs, go_["outs"]):
+            by_id[c["id"]] = {"case": c, "observed": o, "group": shown}
+            try:
+                terms.append(coq_case(c, o, fix))
+            except Odd as ex:
+                odd.append((c["id"], str(ex)))
     out = vlib.coq_eval_sharded(ctx, "cases_c17_" + tag, HEADER, terms, DEFS, shard=250)
     k = out["K"]
     out["K"] = {k[i]: k[i + 1] for i in range(0, len(k), 2)}
@@ -674,6 +969,8 @@ def evaluate(ctx, binp, cases, tag):
     out["DC"] = [sum(dc[i::4]) for i in range(4)]
     pc = out["PC"]
     out["PC"] = [sum(pc[i::5]) for i in range(5)]
+    cc = out["CC"]
+    out["CC"] = [sum(cc[i::NCC]) for i in range(NCC)]
     out["odd"] = odd
     return by_id, out
 
@@ -697,13 +994,22 @@ def type_size(t):
     if t[0] in ("ptr", "slice", "map"):
         return 1 + type_size(t[1])
     if t[0] == "struct":
-        return 1 + sum(1 + type_size(ft) for _, _, ft in t[1])
+        return 1 + sum(1 + len(f) - 3 + type_size(f[2]) for f in t[1])
     return 1
 
 
 def case_size(c):
     return value_size(c["value"]) + type_size(c["type"]) + len(c["text"]) + \
-        (len(json.dumps(c["pre"])) // 8 + 1 if c.get("pre") is not None else 0)
+        (len(json.dumps(c["pre"])) // 8 + 1 if c.get("pre") is not None else 0) + \
+        (1 + len(c["dflt"]) if c.get("dflt") is not None else 0) + len(c.get("pfx", "")) + len(c.get("sfx", "")) + \
+        (2 if c.get("mapper") is not None else 0)
+
+
+def entry_size(e):
+    """a binding of a group counts with its whole group (the replay is the group)"""
+    if e.get("group"):
+        return 1000 + sum(4 + case_size(c) for st in e["group"]["starts"] for comp in st["components"] for c in comp)
+    return case_size(e["case"])
 
 
 def shrink_values(v):
@@ -739,7 +1045,7 @@ def shrink_types(t):
                 out.append(["struct", t[1][:i] + t[1][i + 1:]])
             out.append(t[1][i][2])
             for s in shrink_types(t[1][i][2]):
-                out.append(["struct", t[1][:i] + [[t[1][i][0], t[1][i][1], s]] + t[1][i + 1:]])
+                out.append(["struct", t[1][:i] + [[t[1][i][0], t[1][i][1], s] + t[1][i][3:]] + t[1][i + 1:]])
     elif t[0] in ("int", "uint") and t[1] != 0:
         out.append([t[0], 0])
     return out
@@ -747,10 +1053,22 @@ def shrink_types(t):
 
 def shrink_candidates(c):
     out = []
-    if c["kind"] == "key":
+    if c["kind"] in ("key", "tpl"):
         for v in shrink_values(c["value"]):
             d = copy.deepcopy(c)
             d["value"] = v
+            out.append(d)
+        for f, small in (("dflt", "d"), ("pfx", ""), ("sfx", ""), ("mapper", None)):
+            if c.get(f) in (None, "", small):
+                continue
+            if f in ("pfx", "sfx") and not (c.get("pfx") and c.get("sfx")):
+                continue                                 # a template keeps some literal text
+            d = copy.deepcopy(c)
+            d[f] = small
+            out.append(d)
+        if c.get("dflt") is not None and c["kind"] == "tpl":
+            d = copy.deepcopy(c)
+            d["dflt"] = None
             out.append(d)
     else:
         t = c["text"]
@@ -774,11 +1092,81 @@ def shrink_candidates(c):
             d = copy.deepcopy(c)
             d["pre"] = dp
             out.append(d)
-    if c["key"] != "k" and c["kind"] == "key":
+    if c["key"] != "k" and c["kind"] in ("key", "tpl") and c.get("stream") != "group":
         d = copy.deepcopy(c)
         d["key"] = "k"
         out.append(d)
     return out[:60]
+
+
+def regroup(shown):
+    """the replayable form of a group as it is written to a replay file -> the generator's form"""
+    return {"gid": shown.get("gid", 0), "starts": [{"comps": copy.deepcopy(st["components"])} for st in shown["starts"]]}
+
+
+def wt_shrinks(c):
+    out = []
+    t, v = c["type"], c["value"]
+    if t[0] == "struct" and v[0] == "m" and len(t[1]) > 1:
+        for i, f in enumerate(t[1]):
+            names = {match_name(f, k).lower() for k in ("yaml", "json", "mapstructure", "toml")}
+            d = copy.deepcopy(c)
+            d["type"] = ["struct", t[1][:i] + t[1][i + 1:]]
+            d["value"] = ["m", [kv for kv in v[1] if kv[0] not in names]]
+            if d["value"][1]:
+                out.append(d)
+    if c.get("dflt") is not None and v not in (["s", ""], ["n"]) and not c.get("absent"):
+        d = copy.deepcopy(c)
+        d["dflt"] = None
+        out.append(d)
+    if c.get("mapper") is not None:
+        d = copy.deepcopy(c)
+        d["mapper"] = None
+        out.append(d)
+    return out
+
+
+def group_shrink_candidates(g, target):
+    """smaller groups that still hold the failing binding (given by its position): without one start / component / other
+    binding, or with the failing binding - or one that comes before it - made smaller (see wt_shrinks)"""
+    out = []
+    si0, ci0, ki0 = target
+
+    def variant(edit):
+        d = copy.deepcopy(g)
+        pos = edit(d)
+        if pos is not None:
+            out.append((d, pos))
+    for si in range(len(g["starts"])):
+        if si != si0:
+            variant(lambda d, si=si: (d["starts"].pop(si), (si0 - (si < si0), ci0, ki0))[1])
+    for si, st in enumerate(g["starts"]):
+        for ci in range(len(st["comps"])):
+            if (si, ci) != (si0, ci0):
+                variant(lambda d, si=si, ci=ci: (d["starts"][si]["comps"].pop(ci),
+                                                 (si0, ci0 - (si == si0 and ci < ci0), ki0))[1])
+    for si, st in enumerate(g["starts"]):
+        for ci, comp in enumerate(st["comps"]):
+            for ki in range(len(comp)):
+                if (si, ci, ki) != (si0, ci0, ki0):
+                    variant(lambda d, si=si, ci=ci, ki=ki: (d["starts"][si]["comps"][ci].pop(ki),
+                                                            (si0, ci0, ki0 - ((si, ci) == (si0, ci0) and ki < ki0)))[1])
+    # bindings stay well-typed (a binding that fails would fail the start for all others): values and scalar types are
+    # left alone; a struct loses a field together with its configured key, a binding its default / mapper argument
+    for si, st in enumerate(g["starts"]):
+        for ci, comp in enumerate(st["comps"]):
+            for ki, c in enumerate(comp):
+                if c["kind"] == "lit":
+                    continue
+                for sc in wt_shrinks(c):
+                    variant(lambda d, si=si, ci=ci, ki=ki, sc=sc: (d["starts"][si]["comps"][ci].__setitem__(ki, sc),
+                                                                   target)[1])
+    keep = []
+    for d, pos in out:
+        d["starts"] = [st for st in d["starts"]]
+        if all(st["comps"] and all(comp for comp in st["comps"]) for st in d["starts"]):
+            keep.append((d, pos))
+    return keep[:80]
 
 
 # ------------------------------------------------------------------------------------------------
@@ -824,18 +1212,33 @@ def run(ctx):
     static_ok = vlib.static_obligations(ctx)
     binp = vlib.go_build(ctx, "./cmd/c17")
     n = 3000 if ctx.quick() else 30000
-    corpus = load_corpus()
+    ngroups = 320 if ctx.quick() else 3200
+    corpus, corpus_groups = load_corpus()
     cases = corpus
+    groups = []
     if ctx.replay:
         r = json.load(open(ctx.replay))
         rc = r.get("case", {}).get("case")
-        if rc:
+        if r.get("case", {}).get("group"):
+            cases, groups = [], [regroup(r["case"]["group"])]
+        elif rc:
             cases = [rc]
     else:
         cases = cases + gen_cases(ctx, n)
+        groups = corpus_groups + [gen_group(ctx.rng, len(corpus_groups) + g) for g in range(ngroups)]
     for i, c in enumerate(cases):
         c["id"] = i
-    by_id, res = evaluate(ctx, binp, cases, "main")
+    singles = list(cases)
+
+    def number_groups(gs, first):
+        for g in gs:
+            for c in group_cases(g):
+                c["id"] = first
+                first += 1
+        return first
+    number_groups(groups, len(cases))
+    cases = cases + [c for g in groups for c in group_cases(g)]
+    by_id, res = evaluate(ctx, binp, singles, "main", groups)
     M, V, K = res["M"], res["V"], res["K"]
     ctx.log("cases=%d (x3 routes for key cases) nontrivial=%d unmodelled=%d odd=%d mismatches=%d violations=%d known-class=%d" % (
         len(cases), res["NT"], res["U"], len(res["odd"]), len(M), len(V), len(K)))
@@ -852,9 +1255,46 @@ def run(ctx):
     def classify(entry, K=K):
         return KF_IDS.get(K.get(entry["case"]["id"]))
 
-    V.sort(key=lambda i: case_size(by_id[i]["case"]))
+    V.sort(key=lambda i: entry_size(by_id[i]))
+
+    def shrink_group(entry):
+        """a failing binding of a group: smaller groups (each run in a process of its own) in which a binding still fails"""
+        cur = entry
+        g = regroup(entry["group"])
+        pos = [(si, ci, ki) for si, st in enumerate(g["starts"]) for ci, comp in enumerate(st["comps"])
+               for ki, c in enumerate(comp) if c["id"] == entry["case"]["id"]]
+        if not pos:
+            return cur
+        target = pos[0]
+        for _round in range(15):
+            cands = group_shrink_candidates(g, target)
+            if not cands:
+                break
+            for gi, (d, _) in enumerate(cands):
+                d["gid"] = gi
+            number_groups([d for d, _ in cands], 0)
+            b2, r2 = evaluate(ctx, binp, [], "shrink", [d for d, _ in cands])
+            bad = set(i for i in r2["V"] if i not in r2["K"])
+            best = None
+            for d, p in cands:
+                tc = d["starts"][p[0]]["comps"][p[1]][p[2]]
+                if tc["id"] in bad and (best is None or entry_size(b2[tc["id"]]) < entry_size(b2[best[1]["id"]])):
+                    best = (d, tc, p)
+            if best is None or entry_size(b2[best[1]["id"]]) >= entry_size(cur):
+                break
+            g, target, cur = best[0], best[2], b2[best[1]["id"]]
+        cur["how_to_read"] = ("group.starts are run one after the other in ONE process, every start as one App.Run over all its "
+                              "components (one struct per component; a key binding is three fields prefix:\"key\", "
+                              "value:\"${key[:dflt]}\", prop:\"key[:dflt]\" with the arguments required=false / mapper=<case.mapper>, "
+                              "a tpl binding one field value:\"<pfx>${key[:dflt]}<sfx>\"); 'case' is the binding whose fields ended "
+                              "different from what its own tag, key and configured value determine; group.observed lists the "
+                              "observations of all bindings in order (strings and map keys are hex); struct fields are "
+                              "[Go name, yaml tag, type, {further struct tags}]")
+        return cur
 
     def shrink(entry):
+        if entry.get("group"):
+            return shrink_group(entry)
         cur = entry
         for _round in range(15):
             cands = shrink_candidates(cur["case"])
@@ -872,7 +1312,9 @@ def run(ctx):
             cur = b2[bad[0]]
         cur["how_to_read"] = ("case.value is configured under case.key by the YAML in 'yaml'; observed.get is what Configure.Get "
                               "returned; observed.prefix / value / prop are the field of type case.type after binding through "
-                              "prefix:\"key\", value:\"${key}\", prop:\"key\" (strings and map keys are hex); the property demands "
+                              "prefix:\"key\", value:\"${key}\", prop:\"key\" - with case.dflt set value:\"${key:dflt}\" and "
+                              "prop:\"key:dflt\"; kind tpl: only value:\"<pfx>${key[:dflt]}<sfx>\" - (strings and map keys are hex); "
+                              "a default is for absent keys only, a present key (also k: \"\") must be bound as without it; the property demands "
                               "that the three agree and equal the configured value converted to the field's type; case.pre "
                               "(if set) is what the field held when the component was registered, observed.fresh what the "
                               "same binding leaves in a zero component - the two must not differ when something is bound")
@@ -883,9 +1325,11 @@ def run(ctx):
         more = gen_cases(ctx, 1500)
         for i, c in enumerate(more):
             c["id"] = i
-        b2, r2 = evaluate(ctx, binp, more, "widen")
+        gs = [gen_group(ctx.rng, g) for g in range(200)]
+        number_groups(gs, len(more))
+        b2, r2 = evaluate(ctx, binp, more, "widen", gs)
         bad = [i for i in r2["V"] if i not in r2["K"]]
-        bad.sort(key=lambda i: case_size(b2[i]["case"]))
+        bad.sort(key=lambda i: entry_size(b2[i]))
         return [b2[i] for i in bad[:3]]
 
     # coverage
@@ -894,12 +1338,13 @@ def run(ctx):
     vk, tk, streams, routes = {}, {}, {}, {}
     for c in cases:
         o = by_id[c["id"]]["observed"]
-        h = vlib.stable_hash([c["kind"], c["value"], c["type"], c["req"], c["text"], bool(c.get("absent")), c.get("pre")])
+        h = vlib.stable_hash([c["kind"], c["value"], c["type"], c["req"], c["text"], bool(c.get("absent")), c.get("pre"),
+                              c.get("dflt"), c.get("pfx", ""), c.get("sfx", ""), c.get("mapper")])
         distinct[h] = 1
         oks = [o.get(r) for r in ("prefix", "value", "prop") if o.get(r) is not None and o.get(r)["o"] == "ok"]
         if oks:
             nontrivial[h] = 1
-        kname = value_kind(c["value"]) if c["kind"] == "key" else "literal"
+        kname = value_kind(c["value"]) if c["kind"] != "lit" else "literal"
         vk[kname] = vk.get(kname, 0) + 1
         tk[c["type"][0]] = tk.get(c["type"][0], 0) + 1
         streams[c["stream"]] = streams.get(c["stream"], 0) + 1
@@ -962,32 +1407,123 @@ def run(ctx):
             if bt[0] == "struct" and v[0] == "m" and "T" in bp and \
                     {bytes.fromhex(k).decode().lower() for k, _ in bp["T"]} - {k for k, _ in v[1]}:
                 pre["configured map omits a field of the pre-filled struct (top level)"] += 1
+    # ---- defaults in placeholders, templates, mapper arguments, groups
+    def dclass(c):
+        v = c["value"]
+        if c.get("absent") or v[0] == "n":
+            return "key absent / null (the default applies)"
+        if v == ["s", ""]:
+            return "key present, value is the empty string (the default must NOT be used)"
+        if v in (["l", []], ["m", []]):
+            return "key present with an empty list / map (counts as absent: the default applies)"
+        return "key present, non-empty value (the default must NOT be used)"
+    dfl = {"three routes: prefix:\"k\" / value:\"${k:d}\" / prop:\"k:d\"": {}, "template value:\"<pfx>${k:d}<sfx>\"": {},
+           "template without a default": {}, "of those, inside groups (bound next to other properties)": 0}
+    for c in cases:
+        if c["kind"] == "lit":
+            continue
+        if c.get("dflt") is not None:
+            slot = dfl["three routes: prefix:\"k\" / value:\"${k:d}\" / prop:\"k:d\"" if c["kind"] == "key" else
+                       "template value:\"<pfx>${k:d}<sfx>\""]
+            slot[dclass(c)] = slot.get(dclass(c), 0) + 1
+            if c.get("stream") == "group":
+                dfl["of those, inside groups (bound next to other properties)"] += 1
+        elif c["kind"] == "tpl":
+            slot = dfl["template without a default"]
+            slot[dclass(c)] = slot.get(dclass(c), 0) + 1
+    cc = res["CC"]
+    dfl["measured in Coq on what Configure.Get returned: [key cases with a default; ... key present; ... value is the empty "
+        "string; ... of which the three routes agree (nothing bound, field stays \"\"); ... key absent / empty list / empty "
+        "map; templates; ... that bound a value]"] = cc[:7]
+
+    def hist(xs):
+        h = {}
+        for x in xs:
+            h[str(x)] = h.get(str(x), 0) + 1
+        return dict(sorted(h.items()))
+    mp = {"groups (each in a process of its own)": len(groups),
+          "starts per group": hist(len(g["starts"]) for g in groups),
+          "components per start": hist(len(st["comps"]) for g in groups for st in g["starts"]),
+          "bindings per start": hist(sum(len(comp) for comp in st["comps"]) for g in groups for st in g["starts"]),
+          "bindings in groups": sum(len(group_cases(g)) for g in groups),
+          "bindings by mapper argument": hist(c.get("mapper") or "-" for g in groups for c in group_cases(g)),
+          "bindings whose bound type contains a struct": 0,
+          "... with a field whose yaml tag name differs from the Go name (no mapper argument)": 0,
+          "... with a field named differently by the property's mapper tag key than by the yaml tag": 0,
+          "struct bindings outside groups with a yaml-renamed field (singles; no mapper there)": 0,
+          "groups in which a binding with mapper=X comes before a binding decoded under another tag key whose struct "
+          "fields are named differently under X": 0,
+          "... before it in the same start": 0, "... in an earlier start of the process": 0}
+
+    def has_struct(t):
+        return t[0] == "struct" or (t[0] in ("ptr", "slice", "map") and has_struct(t[1]))
+    for c in singles:
+        if has_struct(c["type"]) and has_renamed(c["type"]):
+            mp["struct bindings outside groups with a yaml-renamed field (singles; no mapper there)"] += 1
+    for g in groups:
+        seen = []          # (start index, tag key) of earlier bindings with a mapper argument
+        hit = same = earlier = False
+        for si, st in enumerate(g["starts"]):
+            for comp in st["comps"]:
+                for c in comp:
+                    tk_ = decoder_tag(c.get("mapper"))
+                    if has_struct(c["type"]):
+                        mp["bindings whose bound type contains a struct"] += 1
+                        if c.get("mapper") is None and has_renamed(c["type"]):
+                            mp["... with a field whose yaml tag name differs from the Go name (no mapper argument)"] += 1
+                        if c.get("mapper") is not None and names_differ(c["type"], tk_, "yaml"):
+                            mp["... with a field named differently by the property's mapper tag key than by the yaml tag"] += 1
+                        for sj, x in seen:
+                            if x != tk_ and names_differ(c["type"], tk_, x):
+                                hit = True
+                                same = same or sj == si
+                                earlier = earlier or sj < si
+                    if c.get("mapper") is not None:
+                        seen.append((si, tk_))
+        mp["groups in which a binding with mapper=X comes before a binding decoded under another tag key whose struct "
+           "fields are named differently under X"] += hit
+        mp["... before it in the same start"] += same
+        mp["... in an earlier start of the process"] += earlier
+    mp["measured in Coq: [bindings with a mapper argument; ... whose bound type differs from the yaml reading; bindings "
+       "without one whose yaml tags rename a field; ... that bound a value by prefix]"] = cc[7:]
+
     pc = res["PC"]
     pre["measured in Coq: pre-filled / something bound and Run ok / ... and the field ended different from the default / "
         "nothing bound and the default stayed / bound ok inside the modelled fragment (compared with decode_weak)"] = pc
-    kfc = {}
+    kfc, kfs = {}, {}
     for i, k in K.items():
         kfc[KF_IDS[k]] = kfc.get(KF_IDS[k], 0) + 1
+        st_ = by_id[i]["case"]["stream"]
+        kfs.setdefault(KF_IDS[k], {})
+        kfs[KF_IDS[k]][st_] = kfs[KF_IDS[k]].get(st_, 0) + 1
     ids = sorted(by_id)
     samples = [by_id[i] for i in ids[len(corpus):len(corpus) + 2] + ids[-1:]]
     triples = sum((3 if c["kind"] == "key" else 1) + (1 if c.get("pre") is not None else 0) for c in cases)
+    app_runs = sum((3 if c["kind"] == "key" else 1) + (1 if c.get("pre") is not None else 0) for c in singles) + \
+        sum(len(g["starts"]) for g in groups)
     cov = {
         "evaluations": triples,
         "distinct_nontrivial": len(nontrivial),
-        "rule": "one evaluation = one real App.Run binding one configured value (or literal) into one field of a generated type "
-                "through one route (prefix / value placeholder / prop / literal value tag; cases of the stream 'prefilled' register "
-                "the component with a non-zero value already in the field and add one run on a zero component); a case is non-trivial when at least one "
-                "of its routes bound a value (outcome ok); distinct = distinct (kind, value, type, required, literal text)",
+        "rule": "one evaluation = one field bound by the real container: one configured value (or literal) into one field of a "
+                "generated type through one route (prefix / value placeholder, with or without a default, alone or inside a "
+                "literal / prop / literal value tag).  Outside groups every evaluation is an App.Run of its own (cases of the "
+                "stream 'prefilled' register the component with a non-zero value already in the field and add one run on a zero "
+                "component); a group runs several starts in one process and binds all fields of all components of a start in "
+                "one App.Run; a case is non-trivial when at least one of its routes bound a value (outcome ok); distinct = "
+                "distinct (kind, value, type, required, literal text, default, surrounding text, mapper)",
+        "app_runs": app_runs,
         "samples": samples,
         "traces_validated_against_impl": triples,
         "input_distribution": {"value_kinds": vk, "top_level_type_kinds": tk, "streams": streams,
                                "route_outcomes(prefix/value/prop)": routes,
-                               "high_precision_floats": precise, "prefilled_fields": pre},
+                               "high_precision_floats": precise, "prefilled_fields": pre,
+                               "placeholder_defaults_and_templates": dfl, "mapper_arguments_and_groups": mp},
         "cases": len(cases),
         "distinct_cases": len(distinct),
         "nontrivial_cases_coq": res["NT"],
         "outside_modelled_fragment(some route compared by the oracle only)": res["U"],
         "known_finding_class_sizes": kfc,
+        "known_finding_class_sizes_by_stream": kfs,
         "theorem_domains_exercised": {"key cases inside safe with inert text (c17_paths_agree_key applies)": res["DC"][0],
                                       "... of which bound a value (not a common conversion error)": res["DC"][2],
                                       "... on which the implementation's three routes differ (must be 0)": res["DC"][3],
@@ -1001,5 +1537,7 @@ def run(ctx):
                                     "type) is evaluated",
                                     "map keys are lower-case identifiers (viper folds case); struct fields are exported",
                                     "literals are generated inside the tag grammar: no top-level comma (C19), no ${ / #{ (C16/C18)",
+                                    "bindings of a group are well-typed (every route succeeds), so that one binding cannot fail the "
+                                    "start for the others; conversions and failures are exercised one binding per start",
                                     "a failing oracle counts as a known finding only if the case lies in a class KF-C17a..i AND "
                                     "the implementation did exactly what the model of the unrepaired value path predicts"])
